@@ -396,6 +396,9 @@ func (e *Engine) registerFmtIntrinsics() {
 			if _, host := cur.V.(hostObj); host {
 				return BoolV{C: false}
 			}
+			if r.eng.prog.MethodSets.MethodSet(cur.T).Lookup(nil, "Unwrap") == nil {
+				return BoolV{C: false} // end of the chain
+			}
 			m := r.eng.prog.LookupMethod(cur.T, nil, "Unwrap")
 			if m == nil || m.Signature.Results().Len() != 1 {
 				return BoolV{C: false}
